@@ -4,8 +4,33 @@
 // prose, link text, link targets, inline code and emphasis, and both link-title options, the tokens that
 // cover characters lie inside the text, in increasing non-overlapping order; zero-width tokens are only
 // structural breaks (newline / paragraph break).
+// progress watchdog (C01: never hangs): every input takes milliseconds; an input that is still being
+// processed after 20 s is reported as non-terminating and the test process is ended
+#[allow(dead_code)]
+fn rac_watchdog(name: &'static str) -> std::sync::Arc<std::sync::Mutex<Option<(u64, String)>>> {
+    let cur = std::sync::Arc::new(std::sync::Mutex::new(None::<(u64, String)>));
+    let c2 = cur.clone();
+    std::thread::spawn(move || {
+        let mut last: Option<(u64, String)> = None;
+        let mut since = std::time::Instant::now();
+        loop {
+            std::thread::sleep(std::time::Duration::from_secs(1));
+            let c = c2.lock().unwrap().clone();
+            if c != last {
+                last = c;
+                since = std::time::Instant::now();
+            } else if last.is_some() && since.elapsed().as_secs() >= 20 {
+                println!("RAC-CEX {} {{\"text\": {:?}, \"why\": \"did not terminate within 20 s (other inputs take milliseconds)\"}}", name, last.unwrap().1);
+                std::process::exit(1);
+            }
+        }
+    });
+    cur
+}
+
 #[test]
 fn rac_markdown_tokens() {
+    let wd = rac_watchdog("markdown_tokens");
     let frags = ["word ", "é😀 ", "[日本語の説明書](x) ", "[a](https://e.com/é) ", "`c😀de` ", "*emph* ", "\n\n", "\n", "# H\n", "- item\n", "| a | b |\n", "1. x\n", "<b>t</b> ", "\\[a- ", "[[|alias|300]] ", "\\[[a|b|c]] ", "[[a|b [[c]] |d]] ", "[[page|shown]] ", "<!-- café --> ", "<abbr title=\"naïve\">x</abbr> ", "<div>🤷</div>\n"];
     let mut texts: Vec<String> = vec![String::new()];
     let mut frontier: Vec<String> = vec![String::new()];
@@ -24,6 +49,7 @@ fn rac_markdown_tokens() {
     for ignore in [false, true] {
         let parser = Markdown::new(MarkdownOptions { ignore_link_title: ignore });
         for t in &texts {
+            *wd.lock().unwrap() = Some((cases, t.clone()));
             let cs: Vec<char> = t.chars().collect();
             let r = std::panic::catch_unwind(|| parser.parse(&cs));
             cases += 1;
@@ -57,5 +83,6 @@ fn rac_markdown_tokens() {
             }
         }
     }
+    *wd.lock().unwrap() = None;
     println!("RAC-OK markdown_tokens cases={} nontrivial={} bound=<=4-of-21-fragments,both-link-title-options", cases, nontrivial);
 }
